@@ -31,7 +31,7 @@ CFG = dict(
              "scanned prefix (beyond badger's iterator prefetch), pruned through prune.Prune on the real badger store with delete trace and crash prefixes, "
              "`wrgl prune`, `wrgl gc` (quick 2, thorough 26); gczone: transaction.GarbageCollect + prune.Prune exactly as gc_cmd.go (and `wrgl gc` with "
              "transactionTTL in the repo config) with time.Local = UTC-8 / UTC / UTC+9 (thorough also -3:30, +5:45, -12, +14), TTLs 1h, 24h, |offset|-1h, |offset|+1h, "
-             "open transactions aged 0 .. TTL+15h on both sides of the TTL, pending commits staged under nested txs/ names. distinct = distinct case text; non-trivial = >= 3 "
+             "open transactions aged 0 .. TTL+15h on both sides of the TTL, in about half of the cases opened by a process in ANOTHER zone than the gc process (one hour apart = DST change, half-hour zones +5:30/-3:30/+5:45/-9:30, 12h apart; fixed 9aaa980), pending commits staged under nested txs/ names. distinct = distinct case text; non-trivial = >= 3 "
              "commits and at least one prune op that deletes something",
         trusted=["ids are abstract small numbers mapped to real 16-byte sums by the harness; the model sorts by id, the code by sum: "
                  "per-kind delete sets and the kind sequence are compared, for crash cases the generator picks object bytes whose sum order "
